@@ -92,10 +92,33 @@ class SpyDecoder:
         return getattr(self._inner, name)
 
 
+class ArbitraryDecoder:
+    """Stand-in for "any decoder output": a fixed pseudo-random function of the syndrome, mostly
+    NOT a valid correction (the field relations are claimed for every decoder output)."""
+    id = 'ArbitraryDecoder'
+    label = 'arbitrary'
+    params: dict = {}
+
+    def __init__(self, code, error_model, error_rate, salt=0):
+        self.n = code.n
+        self.salt = salt
+
+    def decode(self, syndrome, **kw):
+        import hashlib
+        import numpy as np
+        h = hashlib.sha256(bytes([self.salt % 256]) + bytes(int(x) for x in syndrome)).digest()
+        bits = np.unpackbits(np.frombuffer(h * (1 + 2 * self.n // 256), dtype=np.uint8))[:2 * self.n]
+        keep = np.unpackbits(np.frombuffer(hashlib.sha256(h).digest() * (1 + 2 * self.n // 256),
+                                           dtype=np.uint8))[:2 * self.n]
+        return (bits & keep).astype(np.uint8)       # density 1/4
+
+
 def build(combo):
     """combo -> (code, error_model, decoder) from the repo's own classes."""
     from panqec.config import CODES, DECODERS
     from panqec.error_models import PauliErrorModel
+    DECODERS = dict(DECODERS)
+    DECODERS['ArbitraryDecoder'] = ArbitraryDecoder
     code = CODES[combo['code']](*combo['size'])
     if combo.get('deform'):
         code.deform(combo['deform'])
@@ -221,6 +244,14 @@ def gen_combos(rng, thorough, per_family):
             out.append({'code': name, 'size': list(size), 'deform': deform, 'ndeform': ndeform,
                         'r': [frac(Fraction(a, 8)), frac(Fraction(b, 8)), frac(Fraction(c, 8))],
                         'p': frac(p), 'decoder': dec, 'dparams': dparams})
+        # the same family with an arbitrary (mostly invalid) decoder output
+        size = sizes[int(rng.integers(len(sizes)))]
+        a, b, c = EIGHTHS[int(rng.integers(len(EIGHTHS)))]
+        dn = defs[int(rng.integers(len(defs)))] if defs and rng.random() < 0.5 else None
+        out.append({'code': name, 'size': list(size), 'deform': dn if rng.random() < 0.5 else None,
+                    'ndeform': dn, 'r': [frac(Fraction(a, 8)), frac(Fraction(b, 8)), frac(Fraction(c, 8))],
+                    'p': frac(Fraction(int(rng.integers(1, 3)), 8)), 'decoder': 'ArbitraryDecoder',
+                    'dparams': {'salt': int(rng.integers(0, 256))}})
     return out
 
 
